@@ -18,6 +18,8 @@ import SupervisorModel.Props.C16
     deferred waits   start_onwait_total, stop_onwait_total (decide over the generated state table), deferred_wait_completes,
                      deferred_wait_pending_only_while_moving, onwaitCb_completes, deferred_single_completes
     marshalling      answers_never_tuples (decide over the generated return-shape table), marshal_non_tuple, marshal_tuple
+    connection       handover_facts, every_request_on_a_connection_is_dispatched, one_answer_per_request,
+                     stale_request_if_reset_only_on_close (what the theorem rests on), raised_fault_is_answered_as_fault
     request delivery request_body_fragmentation_invariant, request_body_independent_of_cuts, request_body_roundtrip,
                      request_header_fragmentation_invariant (the answer cannot depend on how the socket cuts the request)
 -/
@@ -1162,6 +1164,64 @@ theorem must_move_on_states :
 
 example : ∃ r ∈ answerShapes, r.1 = "_tailProcessLog" ∧ RetShape.list ∈ r.2 := by decide
 example : validState 40 = true ∧ validState 41 = false := by decide
+
+/-! ## one connection, several requests -/
+
+/-- the two finishers reset `channel.current_request` whatever the close flag is; the channel hands on to it only when it
+    is set (the regenerated facts, each for every argument) -/
+theorem handover_facts :
+    (∀ c, doneClears c = true) ∧ (∀ c, defRespClears c = true) ∧ chanDispatchStale false = false := by
+  refine ⟨fun c => ?_, fun c => ?_, ?_⟩ <;> first | (cases c <;> decide) | decide
+
+/-- after any request served on a channel on which no request is current, again no request is current -/
+theorem serve_keeps_no_current (r : Req) (c : Chan) (h : c.current = false) :
+    (serveWith doneClears defRespClears r c).1 = .answered ∧ (serveWith doneClears defRespClears r c).2.current = false := by
+  obtain ⟨hd, hr, hs⟩ := handover_facts
+  have hf : Chan.fresh.current = false := rfl
+  cases hd' : r.deferred <;> cases ho : c.isOpen <;>
+    simp [serveWith, finishWith, hd r.closeIt, hr r.closeIt, hs, h, hf, hd', ho, Chan.fresh]
+
+/-- **every_request_on_a_connection_is_dispatched.**  For every sequence of requests made one after another on one
+    connection — answered at once or later (deferred), the connection kept alive or closed by the answer (then the client
+    connects anew) — every request is cracked as a NEW request and dispatched to the handler: none is handed to a request
+    that has been answered before (which would answer it with HTTP 400). -/
+theorem every_request_on_a_connection_is_dispatched (reqs : List Req) :
+    ∀ x ∈ serveAll reqs Chan.fresh, x = .answered := by
+  suffices h : ∀ (c : Chan), c.current = false → ∀ x ∈ serveAllWith doneClears defRespClears reqs c, x = .answered from
+    h Chan.fresh rfl
+  induction reqs with
+  | nil => intro c _ x hx; simp [serveAllWith] at hx
+  | cons r rest ih =>
+    intro c hc x hx
+    have hs := serve_keeps_no_current r c hc
+    simp only [serveAllWith, List.mem_cons] at hx
+    rcases hx with hx | hx
+    · rw [hx]; exact hs.1
+    · exact ih _ hs.2 x hx
+
+/-- the answers are as many as the requests (none is swallowed) -/
+theorem one_answer_per_request (cd cr : Bool → Bool) (reqs : List Req) (c : Chan) :
+    (serveAllWith cd cr reqs c).length = reqs.length := by
+  induction reqs generalizing c with
+  | nil => rfl
+  | cons r rest ih => simp [serveAllWith, ih]
+
+/-- what the theorem rests on: were the reset done only when the connection is closed (cr = id), the request after a
+    deferred answer on a kept-alive connection would be handed to the answered request -/
+theorem stale_request_if_reset_only_on_close :
+    serveAllWith (fun _ => true) (fun closeIt => closeIt) [⟨true, false⟩, ⟨false, false⟩, ⟨false, false⟩] Chan.fresh
+      = [.answered, .stale, .answered] := by
+  decide
+
+example : serveAll [⟨false, false⟩, ⟨true, false⟩, ⟨false, true⟩, ⟨true, false⟩, ⟨false, false⟩] Chan.fresh
+    = [.answered, .answered, .answered, .answered, .answered] := by decide
+
+/-- **raised_fault_is_answered_as_fault.**  An `RPCError` raised by a method — at once, or later by the callback of a
+    deferred answer — is turned into an `xmlrpclib.Fault` carrying its code and text, which `xmlrpc_marshal` marshals as a
+    `<fault>` response (not as a successful value): a client library raises it as a Fault.  Over the regenerated
+    `except RPCError` handlers of `continue_request` and `DeferredXMLRPCResponse.more`. -/
+theorem raised_fault_is_answered_as_fault : ∀ deferred, raisedBecomesFault deferred = true := by
+  decide
 
 -- non-vacuity
 def demoTable : Table (Method Nat Nat) := fun ns =>
